@@ -10,6 +10,8 @@
 //	  mux    <splits> <ft>:<p> ...       frames through SlipMuxWriter, then SlipMuxReader
 //	  rawmux <splits> <stream>           arbitrary stream bytes through SlipMuxReader
 //	  fcs    <data>                      CalcFcs16 / AppendFcs16 / CheckFsc16
+//	  slipeof <splits> <p1> <p2> ...     as slip, but the transport returns its last byte together with io.EOF
+//	                                     (n > 0, err == io.EOF: allowed by the io.Reader contract)
 //	  obs-dataeof <p1> ...               observation: last byte delivered together with io.EOF
 //	  obs-stall   <pos> <p1> ...         observation: a 0-byte read after <pos> stream bytes
 //	<splits> = comma separated chunk lengths, applied cyclically ("1" = one byte per read).
@@ -135,8 +137,10 @@ func errName(e error) string {
 	return "other"
 }
 
-func doSlip(splits []int, stream []byte) string {
-	cr := &chunkReader{data: stream, splits: splits, end: io.EOF, stallAt: -1}
+func doSlip(splits []int, stream []byte) string { return doSlipT(splits, stream, false) }
+
+func doSlipT(splits []int, stream []byte, dataEOF bool) string {
+	cr := &chunkReader{data: stream, splits: splits, end: io.EOF, stallAt: -1, dataEOF: dataEOF}
 	pk, tail, err := readAllSlip(cr)
 	return fmt.Sprintf("pk=%s tail=%s end=%s", hexList(pk), vh.Hex(tail), errName(err))
 }
@@ -192,6 +196,17 @@ func main() {
 			}
 			stream := append([]byte(nil), buf.Bytes()...)
 			return "stream=" + vh.Hex(stream) + " " + doSlip(splits, stream)
+		case "slipeof":
+			splits := parseSplits(f[1])
+			var buf bytes.Buffer
+			w := slip.NewWriter(&buf)
+			for _, h := range f[2:] {
+				if err := w.WritePacket(vh.UnHex(h)); err != nil {
+					return "ERR write " + err.Error()
+				}
+			}
+			stream := append([]byte(nil), buf.Bytes()...)
+			return "stream=" + vh.Hex(stream) + " " + doSlipT(splits, stream, true)
 		case "raw":
 			if len(f) != 3 {
 				return "bad-op"
